@@ -150,7 +150,7 @@ def fixed_points(acc: Acc) -> None:
 
 # ---------------------------------------------------------------------------- generated rule sets
 
-WORDS = ['if', 'else', 'def', 'in', 'not', 'x', 'kw', 'end', 'a\tb', 'k\tv w']  # (two with a literal control character inside)
+WORDS = ['if', 'else', 'def', 'in', 'not', 'x', 'kw', 'end', 'a\tb', 'k\tv w', '\r', '\n', 'a\rb', '\r\n', '\f', 'p\x0bq']  # (some with literal control characters: tab, CR, LF, FF, VT)
 SYMS = ['+', '-', '*', '(', ')', '[', ']', ',', ':', '=', '.', '==', '->', ':=']
 REGEXPS = ['[\\\\\\/]', 'a\\\\\\/b', '\\\\', '[a-z]+', '[A-Z]\\w*', '0|[1-9]\\d*', '[-+]', '[*\\/%]', '<|>|==', '\\*{1,2}', '\\/', '\\/\\/', '[a-z]+:\\/\\/', '\\/[*]']
 
